@@ -1779,7 +1779,27 @@ def tags(case, r):
     return t
 
 
+def _in_generated_domain(c):
+    """rounding a number must not carry a case out of the domain the generators keep to (ASSUMPTIONS): the Brenner factor is
+    singular at h = R (the oracle's exact denominator is 0 there), beads do not overlap"""
+    k = c["op"]
+    if k == "wall":
+        lo = c["R"] if c.get("no_brenner") else c["R"] * (1 + 1e-3)
+        return c["h"] >= lo and c["h2"] >= lo
+    if k == "couple":
+        return min(c["d"], c["d2"]) >= 2 * c["R"] * (1 + 1e-6)
+    if k == "stimson2":
+        return c["d"] >= (c["R1"] + c["R2"]) * (1 + 1e-6)
+    return True
+
+
 def shrink(case):
+    for c in _shrink_raw(case):
+        if c.get("expect") is not None or _in_generated_domain(c):
+            yield c
+
+
+def _shrink_raw(case):
     """move numbers toward round values (keeps the case kind); nothing structural to drop"""
     for key, v in list(case.items()):
         if isinstance(v, float) and v != 0 and key not in ("h2", "d2", "T2", "m2"):
